@@ -178,6 +178,9 @@ int main(int argc, char **argv) {
     drv::init(parsec);
     drv::detail = missing_tiles;
     if (drv::np != hdrP) { if (!drv::me) fprintf(stderr, "case file wants %d ranks\n", hdrP); MPI_Abort(MPI_COMM_WORLD, 2); }
+    // warm-up outside the watchdog: the first start wakes the communication thread, which enables the engine
+    // (a dozen MPI_Comm_dup collectives) -- seconds on a loaded machine, and not what a case is about
+    parsec_context_start(parsec); parsec_context_wait(parsec); MPI_Barrier(drv::hc);
     int failed = 0;
     for (size_t ci = 0; ci < cases.size() && !failed; ci++) {
         const Case &c = cases[ci];
